@@ -10,9 +10,9 @@ def run(res):
     res.rule = tarun.RULE
     res.assumptions += ["pool and CPU choices of the policy are oracles read off the implementation's grants (validity checked by the guarded model step)",
                         "balloons half: evaluated on the balloons histories by the BA driver (membership of stopped containers, quiescence, re-applied configuration); no Lean model of its own beyond C02's partition theorems"]
-    tarun.run(res, "C09:")
+    tarun.run(res, "C09:", cfgchanges=True)
     # balloons half: same predicates on the balloons policy's histories
-    barun.run(res, "C09:")
+    barun.run(res, "C09:", cfgchanges=True)
     res.samples += [f"theorem {n}" for n in names[:30]]
 
 
